@@ -175,11 +175,13 @@ theorem covRead_matches_writers :
 /-- the OEM KVN reader names the values of a covariance row of length `i+1` by exactly the writers' keys of row `i` -/
 theorem oemCovRows_match_writers : oemCovRowKeys = covWriteKeys := by decide
 
-/-- frame and centre: for each of the ten frames, what the writers print as CENTER_NAME / REF_FRAME is
-mapped back to the frame's own name by the readers' centre rule -/
+/-- frame and centre: for each registered frame — the ten Earth-centred ones and every frame centred elsewhere that the library can
+create (solar-system bodies, bodies of the JPL kernels, Lagrange points; table regenerated from the live objects) — what the writers
+print as CENTER_NAME / REF_FRAME is mapped back to the frame's own name by the readers' centre rule (`REF_FRAME` for the Earth,
+`CENTER_NAME.title().replace(" ", "")` looked up in the registry otherwise) -/
 theorem frames_roundtrip : ∀ f ∈ frameTable, centreRule f.2.1 f.2.2 = .ok f.1 := by decide
 
-example : frameTable.length = 10 := by decide
+example : 10 ≤ frameTable.length ∧ ("SolarSystemBarycenter", "SOLAR SYSTEM BARYCENTER", "EME2000") ∈ frameTable := by decide
 
 /-- covariance frame tags: own frame (absent), QSW (written RSW) and TNW all come back -/
 theorem cov_frame_alias_roundtrip :
@@ -283,15 +285,15 @@ theorem mans_xml_roundtrip (own : String) (ms : List Man) (hwf : ∀ m ∈ ms, M
   rw [mapM_asDict]
   exact mapM_loadMan own ms hwf
 
-/-- the frame tag of a maneuver survives — own frame (`None`), QSW and TNW — for each of the ten orbit frames -/
+/-- the frame tag of a maneuver survives — own frame (`None`), QSW and TNW — for each registered orbit frame -/
+theorem manFrameBack_table : ∀ own ∈ frameTable.map (·.1), ∀ fr ∈ [none, some "QSW", some "TNW"],
+    manFrameBack own ⟨0, .s "", fr, none, []⟩ = fr := by decide
+
 theorem manFrameBack_ok (own : String) (m : Man) (hown : own ∈ frameTable.map (·.1))
     (hf : m.frame = none ∨ m.frame = some "QSW" ∨ m.frame = some "TNW") : manFrameBack own m = m.frame := by
-  have hmem : own ∈ ["EME2000", "MOD", "TOD", "TEME", "PEF", "ITRF", "TIRF", "CIRF", "GCRF", "G50"] := by
-    have : frameTable.map (·.1) = ["EME2000", "MOD", "TOD", "TEME", "PEF", "ITRF", "TIRF", "CIRF", "GCRF", "G50"] := by decide
-    rw [this] at hown; exact hown
-  simp only [List.mem_cons, List.not_mem_nil, or_false] at hmem
-  rcases hf with hf | hf | hf <;> rcases hmem with h | h | h | h | h | h | h | h | h | h <;> subst h <;>
-    simp [manFrameBack, manFrameOut, hf, aliasIn, aliasOut, manAliasIn, manAliasOut, List.lookup] <;> decide
+  have h : manFrameBack own m = manFrameBack own ⟨0, .s "", m.frame, none, []⟩ := rfl
+  rw [h]
+  exact manFrameBack_table own hown m.frame (by rcases hf with h | h | h <;> simp [h])
 
 example : ManWf "EME2000" ⟨0, .s "t", some "TNW", some "burn", [.s "1", .s "2", .s "3"]⟩ := by
   refine ⟨⟨_, _, _, rfl, ?_, ?_, ?_⟩, ?_, ?_, ?_⟩ <;> decide
